@@ -155,7 +155,7 @@ def dashStartLoop (d : List α) : Nat → Nat → α → Option (Nat × α)
       if di ≤ off then dashStartLoop d fuel (if i0 + 1 = d.length then 0 else i0 + 1) (off - di)
       else some (i0, off)
 
-/-- the offset the loop starts from (path.go, repaired by 8d5b47c): a negative offset is moved to
+/-- the offset the loop starts from (path.go, repaired by e14817f): a negative offset is moved to
 the same position within the first period with `math.Mod` (`fmod`; exact; result has the sign of its
 first argument), plus one period when the remainder is negative. -/
 def reducedOffset (fmod : α → α → α) (offset : α) (d : List α) : α :=
@@ -215,7 +215,7 @@ def subpathIntervals (eps : α) (fuel : Nat) (d : List α) (i0 : Nat) (pos0 : α
   match positionsLoop eps d length fuel i0 pos0 [] with
   | none => none
   | some (t, iEnd) =>
-    -- d3f7b7f: `nt := len(pd)-1` cuts were made by SplitAt and the pattern index of the last piece
+    -- 8a98a46: `nt := len(pd)-1` cuts were made by SplitAt and the pattern index of the last piece
     -- is stepped back by the cuts not made; exact cuts: all `t.length` are made
     let nt := t.length
     let i := iEnd + t.length - nt
